@@ -1,6 +1,8 @@
+mod c15;
 mod c57;
+mod msref;
 mod util;
 
 fn main() {
-    vmon::run_main(&[("C57", c57::run)]);
+    vmon::run_main(&[("C15", c15::run), ("C57", c57::run)]);
 }
